@@ -333,6 +333,13 @@ func TestC17Tamper(t *testing.T) {
 	for k := 0; k < 40; k++ {
 		cases = append(cases, tcase{1 << 20, "flip", -1, k})
 	}
+	// the file of an entry whose key agrees with this one in its first Pos
+	// bytes (both keys Size bytes long), put in its place
+	for _, kl := range []int{40, 100, 255, 256, 257, 300, 600, 1100} {
+		for _, agree := range []int{kl - 1, kl / 2, 16} {
+			cases = append(cases, tcase{kl, "replace-with-similar-key-entry", agree, 0})
+		}
+	}
 	r.SetExhaustive(true)
 	// one cache directory per (batch, size): tamper in place, restore afterwards
 	dirs := map[int]string{}
@@ -352,6 +359,12 @@ func TestC17Tamper(t *testing.T) {
 			r.Begin(i, c)
 		} else {
 			r.AddEvaluations(1)
+		}
+		if c.Kind == "replace-with-similar-key-entry" {
+			c17SimilarKey(r, c.Size, c.Pos)
+			r.Nontrivial(fmt.Sprintf("%+v", c))
+			r.Count("tamper:"+c.Kind, 1)
+			continue
 		}
 		if _, ok := dirs[c.Size]; !ok {
 			d := ScratchDir()
@@ -458,6 +471,63 @@ func TestC17Tamper(t *testing.T) {
 		}
 	}
 	r.Done()
+}
+
+// c17SimilarKey stores two entries whose keys (kl bytes each) agree in their
+// first `agree` bytes, puts the file of the second in the place of the first
+// and expects Get of the first key not to hand out the second's value.
+func c17SimilarKey(r *run.Runner, kl, agree int) {
+	d := ScratchDir()
+	defer os.RemoveAll(d)
+	conn, err := Backend("fsaes", d)
+	if err != nil {
+		r.Inconclusive(err.Error())
+		return
+	}
+	mk := func(tail byte) string {
+		k := []byte("http://a.example/")
+		for len(k) < kl {
+			if len(k) < agree {
+				k = append(k, byte('a'+len(k)%26))
+			} else {
+				k = append(k, tail)
+			}
+		}
+		return string(k)
+	}
+	ka, kb := mk('A'), mk('B')
+	if err := conn.Set(ka, MakeValue("first", 17, true)); err != nil {
+		r.Inconclusive(err.Error())
+		return
+	}
+	fa := readFiles(d)
+	if err := conn.Set(kb, MakeValue("second", 17, true)); err != nil {
+		r.Inconclusive(err.Error())
+		return
+	}
+	var pa, pb string
+	for p := range readFiles(d) {
+		if _, was := fa[p]; was {
+			pa = p
+		} else {
+			pb = p
+		}
+	}
+	if len(fa) != 1 || pa == "" || pb == "" {
+		r.Inconclusive(fmt.Sprintf("cannot tell the two entry files apart (%d files after the first write)", len(fa)))
+		return
+	}
+	bb, _ := os.ReadFile(pb)
+	os.WriteFile(pa, bb, 0o644)
+	got, err := conn.Get(ka)
+	if err == nil {
+		id, intact := ParseValue(got)
+		r.Violation("tampered-file-accepted", fmt.Sprintf("kind=replace-with-similar-key-entry,keylen=%d,agree=%d", kl, agree), fmt.Sprintf("the file of the entry for a key that agrees in its first %d of %d bytes was put in this entry's place and accepted: Get returned %d bytes (id %q, intact %v)", agree, kl, len(got), id, intact), nil)
+	} else if errors.Is(err, driver.ErrNotExist) {
+		r.Count("rejected_as_absent", 1)
+	} else {
+		r.Count("rejected_with_error", 1)
+	}
 }
 
 // TestC17Transport: store three responses through a transport with an
